@@ -7,7 +7,7 @@ cp -r /repo/src "$D/src"
 (cd "$D" && patch -p1 -s < "$PATCH")
 cd /verif
 set +e
-VERIF_REPO=$D /venv/bin/python -m vf.run $ID --tier $TIER 2>&1 | grep -v "^KNOWN-FINDING" | tail -${TAIL:-6}
+VERIF_EVIDENCE_DIR=/tmp/vf_mutant_evidence VERIF_REPO=$D /venv/bin/python -m vf.run $ID --tier $TIER 2>&1 | grep -v "^KNOWN-FINDING" | tail -${TAIL:-6}
 rc=${PIPESTATUS[0]}
 rm -rf "$D"
 echo "rc=$rc"
